@@ -225,6 +225,9 @@ def profile():
         '*::reply/2': ('expr', 'ev_emit({1})'),
         'op->:QXmppOutgoingClientPrivate*': ('arg', 0),
         # ---- QXmppOutgoingClient::handleElement (units/C08/stream.h)
+        # the TLS gate added by the C04 repair: with TLS required nothing is dispatched before the link is encrypted
+        'QSslSocket::isEncrypted/0': ('const', 'gh_link_encrypted'),
+        '*::streamSecurityMode/0': ('const', 'gh_cfg_security_mode'),
         'QXmppOutgoingClient::streamAckManager/0': ('expr', '{0}->d->streamAckManager'),
         'QXmppOutgoingClient::iqManager/0': ('expr', '{0}->d->iqManager'),
         'StreamAckManager::handleStanza/1': ('callee', 'SAM_handleStanza'),
@@ -329,7 +332,7 @@ def profile():
     }
     del calls['ctor:QXmppIq(QXmppIq)']
     return opaque_profile(types=types, class_types={'QXmppIq', 'StanzaError', 'QXmppPresence', 'QXmppMessage', 'StreamAckManager', 'OutgoingIqManager', 'QXmppStreamFeatures', 'StreamErrVariant', 'StreamErrorElement', 'ExtList', 'OptE2ee', 'ItemList', 'RosterItem', 'EntryMap', 'TupleBQQ', 'IqOrError'},
-                          calls=calls, pure_fns={'client', 'configuration', 'jidBare'})
+                          calls=calls, pure_fns={'client', 'configuration', 'jidBare', 'socket', 'isEncrypted', 'streamSecurityMode'})
 
 
 STRUCTS = ''
